@@ -57,6 +57,7 @@ def run(ctx):
             xs[2 * j] = rng.choice([5e-324, 1 - 2.0 ** -53, rng.random()])
         ss.append(dict(s, xs=xs, req=S.sample_request(s["case"], s["routing"], s["table"], xs), kind="rare_sector"))
     evaluate(ctx, ss)
+    SC.divergent_probe(ctx)
     # failing-input search when the tie to the subgraph table broke (build_sampler rejected graphs the exact oracle accepts): the same
     # topologies with larger propagator powers, which a wrong loop number / spanning flag may let through, many sectors each
     rej = ctx.extra.pop("_rejected_cases", [])
